@@ -37,7 +37,7 @@ def rand_fwd(rng, route, ncallees, nested=False, callees=None):
     k = rng.randrange(ncallees)
     npos = rng.choice([0, 0, 0, 1, 2])
     # a keyword naming a positional-only parameter of the callee is version-dependent: excluded by the properties
-    po = {q[0] for q in callees[k] if q[1] == 'po'} if callees else set()
+    po = {q[0] for q in callees[0 if route == 'param' else k] if q[1] == 'po'} if callees else set()     # (route param: every call goes to g0)
     kws = [x for x in rng.sample(['x', 'y', 'q'], rng.choice([0, 0, 1])) if x not in po]
     va = rng.random() < 0.8
     vk = rng.random() < 0.8
